@@ -145,7 +145,7 @@ package http
 
 //@ func (*mux).resolveWildcard
 //@   params m method pattern
-//@   property C16
+//@   property C16 C02
 //@   requires m != nil
 //@   ensures* named: inMap(m.wildcards, method + "::" + pattern) ==> result == substr(pattern, 0, len(pattern) - 2) + "/{*" + m.wildcards[method + "::" + pattern] + "}"
 //@   ensures* plain: !inMap(m.wildcards, method + "::" + pattern) ==> result == pattern
@@ -153,7 +153,7 @@ package http
 
 //@ func (*mux).Handle
 //@   params m method pattern handler
-//@   property C16 C20
+//@   property C16 C20 C02
 //@   requires m != nil && m.wildcards != nil && m.Router != nil
 //@   requires select(lockHeld, addr(m.mu)) == 0
 //@   let rt = m.Router
@@ -188,7 +188,7 @@ package http
 
 //@ func (*mux).Vars
 //@   params m r
-//@   property C16
+//@   property C16 C02
 //@   requires m != nil && r != nil && r.URL != nil
 //@   let x = ptr(*chi.Context, chiCtxOf(r.ctx))
 //@   requires r.ctx != nil
@@ -204,7 +204,7 @@ package http
 
 //@ func (*mux).ResolvePattern
 //@   params m r
-//@   property C16
+//@   property C16 C02
 //@   requires m != nil && r != nil && r.URL != nil && r.ctx != nil
 //@   let x = ptr(*chi.Context, chiCtxOf(r.ctx))
 //@   requires x != nil ==> select(chiPat, x) != ""
@@ -217,7 +217,7 @@ package http
 
 //@ func (*mux).Handle$1
 //@   params w req
-//@   property C16 C05
+//@   property C16 C05 C02
 //@   requires w != nil && req != nil && req.ctx != nil
 //   -- the request context holds no foreign value under goa's content type key
 //@   requires ctxVal(req.ctx, iface(contextKey, 2)) == nil || typeIs(ctxVal(req.ctx, iface(contextKey, 2)), string)
